@@ -63,7 +63,9 @@ func replaySearch(p *Prog, o *Obligation, id string) map[string]interface{} {
 	cmd := exec.CommandContext(ctx, "go", "test", "-overlay", ovPath, "-vet=off", "-count=1", "-timeout", "90s", "-run", "^"+testName+"$", ".")
 	cmd.Dir = dir
 	cmd.Env = append(os.Environ(), "GOFLAGS=-mod=mod", "GOPROXY=off", "GOSUMDB=off", "GOTOOLCHAIN=local", "VF_OBLIGATION="+o.Name)
+	restore := keepModFiles()
 	out, _ := cmd.CombinedOutput()
+	restore()
 	res := map[string]interface{}{"harness": h, "command": strings.Join(cmd.Args, " ") + "   (cwd " + dir + ")", "failing_input_found": false}
 	var fails []string
 	for _, l := range strings.Split(string(out), "\n") {
@@ -146,7 +148,21 @@ func runStandin(p *Prog, sd standin) map[string]interface{} {
 	cmd := exec.CommandContext(ctx, "go", "test", "-v", "-overlay", ovPath, "-vet=off", "-count=1", "-timeout", fmt.Sprintf("%ds", limit-20), "-run", "^"+sd.Test+"$", ".")
 	cmd.Dir = dir
 	cmd.Env = append(os.Environ(), "GOFLAGS=-mod=mod", "GOPROXY=off", "GOSUMDB=off", "GOTOOLCHAIN=local", "VF_TIER="+standinTier)
+	// go test under -mod=mod may rewrite go.mod / go.sum of the module under test (an import the harness adds can turn an
+	// indirect requirement into a direct one): a check never leaves the tree it checks changed
+	modFiles := map[string][]byte{}
+	for _, name := range []string{"go.mod", "go.sum"} {
+		if b, err := os.ReadFile(filepath.Join(repoDir(), name)); err == nil {
+			modFiles[name] = b
+		}
+	}
 	out, runErr := cmd.CombinedOutput()
+	for name, before := range modFiles {
+		if after, err := os.ReadFile(filepath.Join(repoDir(), name)); err == nil && string(after) != string(before) {
+			os.WriteFile(filepath.Join(repoDir(), name), before, 0o644)
+			res["restored"] = name + " was rewritten by go test and has been put back"
+		}
+	}
 	res["seconds"] = time.Since(t0).Seconds()
 	res["command"] = strings.Join(cmd.Args, " ") + "   (cwd " + dir + ")"
 	var fails []string
@@ -266,4 +282,22 @@ func pruneHarness(path, test string) ([]byte, error) {
 		return nil, err
 	}
 	return buf.Bytes(), nil
+}
+
+// keepModFiles remembers go.mod and go.sum of the tree under check and returns a function that puts them back if a go
+// command has rewritten them.
+func keepModFiles() func() {
+	saved := map[string][]byte{}
+	for _, name := range []string{"go.mod", "go.sum"} {
+		if b, err := os.ReadFile(filepath.Join(repoDir(), name)); err == nil {
+			saved[name] = b
+		}
+	}
+	return func() {
+		for name, before := range saved {
+			if after, err := os.ReadFile(filepath.Join(repoDir(), name)); err == nil && string(after) != string(before) {
+				os.WriteFile(filepath.Join(repoDir(), name), before, 0o644)
+			}
+		}
+	}
 }
